@@ -114,6 +114,9 @@ type Def struct {
 	Fields []Field
 	Value  *Val // const value
 	Funcs  []Func
+	// AllowEmpty: a union that may have no member set (the result struct of a
+	// function that returns nothing)
+	AllowEmpty bool
 	Parent string
 	// GoName, when set, is emitted as the go.name annotation of the definition
 	// (typedef, enum, struct, union, exception): the generated Go type has this name.
